@@ -308,6 +308,13 @@ impl<'a> ProcessTransaction<'a> {
         *self.state.as_ref().unwrap()
     }
 
+    /// Commit everything written so far and continue in a new immediate transaction.
+    pub(crate) fn checkpoint(&mut self) -> rusqlite::Result<()> {
+        let state = self.state.as_mut().unwrap();
+        state.db.execute_batch("COMMIT; BEGIN IMMEDIATE")?;
+        Ok(())
+    }
+
     fn write<P>(&mut self, sql: &str, params: P) -> rusqlite::Result<usize>
     where
         P: Params,
